@@ -153,6 +153,36 @@ impl Prop for C07 {
         }
         let _ = it.size_hint();
         ensure!(polled == frame, "encode-streaming-mismatch", "encode_streaming({}) with size_hint() polled before every step = {}, reference frame = {}", hex_short(p, 48), hex_short(&polled, 64), hex_short(&frame, 64));
+        // a source that is not fused (it yields bytes again after its first None): the encoder must have stopped
+        // asking at the first None
+        {
+            struct Resuming<'a> {
+                inner: std::slice::Iter<'a, u8>,
+                ended: bool,
+            }
+            impl<'a> Iterator for Resuming<'a> {
+                type Item = u8;
+                fn next(&mut self) -> Option<u8> {
+                    if self.ended {
+                        return Some(0xee);
+                    }
+                    let r = self.inner.next().copied();
+                    if r.is_none() {
+                        self.ended = true;
+                    }
+                    r
+                }
+            }
+            let mut it = sml_rs::transport::Encoder::new(Resuming { inner: p.iter(), ended: false });
+            let mut out = Vec::with_capacity(frame.len());
+            for _ in 0..=cap_steps {
+                match it.next() {
+                    Some(b) => out.push(b),
+                    None => break,
+                }
+            }
+            ensure!(out == frame, "encode-streaming-mismatch", "Encoder::new over a source that yields bytes again after its first None ({}) = {}, reference frame = {}", hex_short(p, 48), hex_short(&out, 64), hex_short(&frame, 64));
+        }
         // fixed buffer
         let mut near = false;
         if let Some(n) = i.cap {
